@@ -429,19 +429,22 @@ def rule_l4(chk: Check, ix: Index):
     if len(conds) != 1:
         bad.append("no single condition guards the implicit NEWLINE")
     else:
-        for last_line, want in (("x = 1", True), ("x = 1\n", False), ("x = 1\r\n", False), ("# c", False), ("   # c", False),
-                                ("\t# c", False), ("x = 1  # c", True), ("", False), ("    y", True), ("#", False)):
-            st = _types.SimpleNamespace(last_line=last_line, lnum=3)
+        # (text of the last line, was it a blank/comment-only line for which NL was emitted?)
+        for (last_line, was_blank), want in ((("x = 1", False), True), (("x = 1\n", False), False), (("x = 1\r\n", False), False),
+                                             (("# c", True), False), (("   # c", True), False), (("\t# c", True), False),
+                                             (("x = 1  # c", False), True), (("", False), False), (("    y", False), True),
+                                             (("# b\'\'\'", False), True)):   # a '#' line that lies inside a string is not a comment
+            st = _types.SimpleNamespace(last_line=last_line, lnum=6, blank_lnum=5 if was_blank else 2)
             try:
-                got = bool(constfold.eval_local_value(ne.node, conds[0].test, {"state": st}, data_attrs=("last_line", "lnum")))
+                got = bool(constfold.eval_local_value(ne.node, conds[0].test, {"state": st}, data_attrs=("last_line", "lnum", "blank_lnum")))
             except constfold.PureEvalError as e:
                 bad.append(f"not evaluable: {e}")
                 break
             if got != want:
-                bad.append((last_line, got))
+                bad.append((last_line, "blank/comment line" if was_blank else "code or string text", got))
     chk.require(not bad, "L4-block-structure", "next_end_tokens:implicit-newline", ne.where,
-                f"the implicit NEWLINE must be added exactly when the input's last line lacks a line end and is not a (possibly indented) "
-                f"comment-only line; differs on {bad[:3]}")
+                f"the implicit NEWLINE must be added exactly when the input's last line lacks a line end and was not a blank/comment-only "
+                f"line (decided by the scanner's state: a line starting with '#' inside a string is text); differs on {bad[:3]}")
     tk = ix.get("_tokenize")
     chk.count("L4-block-structure")
     last = tk.node.body[-1]
